@@ -71,8 +71,8 @@ fn gen_cfg(t: &mut Tape, focus: &str) -> Cfg {
                 ([0usize, 3, 4, 6, 7, 9][t.draw(6) as usize], t.chance(3, 4), t.draw(10))
             }
         }
-        "C09" => ([1usize, 2, 5, 8, 10][t.draw(5) as usize], true, 1 + t.draw(9)),
-        _ => (t.draw(AE.len() as u32) as usize, !t.chance(1, 8), t.draw(10)),
+        "C09" => ([1usize, 2, 5, 8, 10][t.draw(5) as usize], true, 1 + t.draw(10)),
+        _ => (t.draw(AE.len() as u32) as usize, !t.chance(1, 8), t.draw(11)),
     };
     let mut earlier_levels = Vec::new();
     let mut earlier_chunks = Vec::new();
@@ -824,6 +824,9 @@ pub fn run(ctx: &mut Ctx) -> Result<RunOut, Violation> {
             };
             for (k, (_, s)) in sim.log.steps.iter().enumerate().skip(term + 1) {
                 if let Step::Data(n) = s {
+                    if *n == 0 {
+                        return violation("C20", "frame-after-termination", format!("{cfg_desc}: poll #{} after the terminal event ({kind}) returned a zero-length frame; ops {:?}", k - term, sim.ops));
+                    }
                     if *n > 0 {
                         return violation("C20", "data-after-termination", format!("{cfg_desc}: poll #{} after the terminal event ({kind}) returned {n} bytes; ops {:?}", k - term, sim.ops));
                     }
